@@ -22,6 +22,11 @@ def build(tier, seed):
     for i, perm in enumerate(perms5):
         for bs in ((34,) if quick else (28, 34, 40, 200)):
             qs.append(wc.wq("gate_t5_p%d_bs%d" % (i, bs), ri=2, bs=bs, perm=perm, witness=False, **T5))
+    # an entry at least as large as the block size, followed by keys that are not greater
+    TB = dict(kls=[1, 1, 1], lcps=[0, 0, 0], vls=[1, 30, 1])
+    for i, perm in enumerate([[0, 1, 1, 2], [0, 1, 0, 2], [1, 1, 2], [1, 0, 2, 2]]):
+        for bs in ((28,) if quick else (24, 28, 31, 32, 48)):
+            qs.append(wc.wq("gate_big_p%d_bs%d" % (i, bs), ri=2, bs=bs, perm=perm, witness=False, **TB))
     # bytes >= 0x80: unsigned comparison
     qs.append(wc.wq("gate_hi", ri=2, bs=30, perm=[0, 2, 1, 2], base=0xf6, witness=False, **THI))
     qs.append(wc.wq("gate_lohi", ri=2, bs=30, perm=[1, 0, 2], special={(0, 0): 0x7f, (1, 0): 0x80, (2, 0): 0xff},
